@@ -4,6 +4,7 @@ import (
 	"bytes"
 	"errors"
 	"fmt"
+	"strconv"
 
 	simdjson "github.com/minio/simdjson-go"
 )
@@ -95,10 +96,93 @@ func scalarCanon(out []byte, it *simdjson.Iter, typ simdjson.Type) ([]byte, erro
 
 // ---- W1 ----
 
+// wrongTypeProbe: on the value queued in it (type typ), every typed accessor that does not apply to that type must
+// return an error instead of a value, and StringCvt must give the documented text for null, booleans and integers.
+// (Int/Uint/Float convert between the numeric types; those conversions are judged in scalarCanon and C12.)
+func wrongTypeProbe(it *simdjson.Iter, typ simdjson.Type) error {
+	cp := it // on the walker's own iterator: a read accessor that moved or changed it would derail the walk
+	isNum := typ == simdjson.TypeInt || typ == simdjson.TypeUint || typ == simdjson.TypeFloat
+	if typ != simdjson.TypeBool {
+		if v, err := cp.Bool(); err == nil {
+			return fmt.Errorf("Bool() on a %v returned %v without error", typ, v)
+		}
+	}
+	if !isNum {
+		if v, err := cp.Int(); err == nil {
+			return fmt.Errorf("Int() on a %v returned %v without error", typ, v)
+		}
+		if v, err := cp.Uint(); err == nil {
+			return fmt.Errorf("Uint() on a %v returned %v without error", typ, v)
+		}
+		if v, err := cp.Float(); err == nil {
+			return fmt.Errorf("Float() on a %v returned %v without error", typ, v)
+		}
+		if v, _, err := cp.FloatFlags(); err == nil {
+			return fmt.Errorf("FloatFlags() on a %v returned %v without error", typ, v)
+		}
+	}
+	if typ != simdjson.TypeString {
+		if v, err := cp.String(); err == nil {
+			return fmt.Errorf("String() on a %v returned %q without error", typ, v)
+		}
+		if v, err := cp.StringBytes(); err == nil {
+			return fmt.Errorf("StringBytes() on a %v returned %q without error", typ, v)
+		}
+	}
+	if typ != simdjson.TypeObject {
+		if _, err := cp.Object(nil); err == nil {
+			return fmt.Errorf("Object() on a %v succeeded", typ)
+		}
+	}
+	if typ != simdjson.TypeArray {
+		if _, err := cp.Array(nil); err == nil {
+			return fmt.Errorf("Array() on a %v succeeded", typ)
+		}
+	}
+	if _, _, err := cp.Root(nil); err == nil {
+		return fmt.Errorf("Root() on a %v succeeded", typ)
+	}
+	sc, err := cp.StringCvt()
+	switch typ {
+	case simdjson.TypeNull:
+		if err != nil || sc != "null" {
+			return fmt.Errorf("StringCvt() on null = %q, %v", sc, err)
+		}
+	case simdjson.TypeBool:
+		b, _ := cp.Bool()
+		if err != nil || sc != strconv.FormatBool(b) {
+			return fmt.Errorf("StringCvt() on the bool %v = %q, %v", b, sc, err)
+		}
+	case simdjson.TypeInt:
+		v, _ := cp.Int()
+		if err != nil || sc != strconv.FormatInt(v, 10) {
+			return fmt.Errorf("StringCvt() on the int %d = %q, %v", v, sc, err)
+		}
+	case simdjson.TypeUint:
+		v, _ := cp.Uint()
+		if err != nil || sc != strconv.FormatUint(v, 10) {
+			return fmt.Errorf("StringCvt() on the uint %d = %q, %v", v, sc, err)
+		}
+	case simdjson.TypeString:
+		b, _ := cp.StringBytes()
+		if err != nil || sc != string(b) {
+			return fmt.Errorf("StringCvt() on the string %q = %q, %v", b, sc, err)
+		}
+	case simdjson.TypeObject, simdjson.TypeArray:
+		if err == nil {
+			return fmt.Errorf("StringCvt() on a %v returned %q without error", typ, sc)
+		}
+	}
+	return nil
+}
+
+var w1Probes int
+
 func walkW1(pj *simdjson.ParsedJson) ([]byte, error) {
 	it := pj.Iter()
 	var out []byte
 	n := 0
+	w1Probes = 0
 	for {
 		typ := it.Advance()
 		if typ == simdjson.TypeNone {
@@ -130,6 +214,13 @@ func walkW1(pj *simdjson.ParsedJson) ([]byte, error) {
 func w1Value(out []byte, it *simdjson.Iter, typ simdjson.Type) ([]byte, error) {
 	if it.Type() != typ {
 		return out, fmt.Errorf("W1: Type() = %v after Advance returned %v", it.Type(), typ)
+	}
+	if w1Probes < 48 {
+		// the first values of every walk (bounded: the walkers run on every case of every check)
+		w1Probes++
+		if err := wrongTypeProbe(it, typ); err != nil {
+			return out, fmt.Errorf("W1: %v", err)
+		}
 	}
 	switch typ {
 	case simdjson.TypeArray:
